@@ -110,12 +110,12 @@ theorem richErrGo_ge_diff (eps ten fact : K) (he : 0 ≤ eps) (ht : 0 ≤ ten) (
   | [_], _, i, h => by simp [richErrGo] at h
   | _ :: _ :: _, [], i, h => by simp [richErrGo] at h
   | a :: b :: rest, o :: os, 0, _ => by
-    simp only [richErrGo, List.getElem_cons_zero, List.getD_cons_succ, List.getD_cons_zero, num_abs]
-    have h2 : 0 ≤ maxNrm (Num.abs : K → K) b a :=
+    simp only [richErrGo, Gen.richErrMainElem, List.getElem_cons_zero, List.getD_cons_succ, List.getD_cons_zero, num_abs]
+    have h2 : 0 ≤ Gen.maxNrm (Num.abs : K → K) b a :=
       maxNrm_nonneg _ (fun c => by simp only [num_abs]; exact abs_nonneg c) b a
     have h3 := abs_nonneg (a - o)
     split_ifs
-    · have : 0 ≤ maxNrm (Num.abs : K → K) b a * eps * fact * ten := by positivity
+    · have : 0 ≤ Gen.maxNrm (Num.abs : K → K) b a * eps * fact * ten := by positivity
       linarith
     · have : 0 ≤ |a - o| * fact := by positivity
       linarith
